@@ -7,7 +7,7 @@ from core import short
 import flow
 from flow import fmt_events
 from roles import field_root, FILE
-from rules_pipeline import expr_str, methods_of
+from rules_pipeline import expr_str, methods_of, resolve_alias
 
 OHB = 'Vector::BLF::ObjectHeaderBase'
 U2Q = FILE + '::uncompressedFile2ReadWriteQueue'
@@ -83,6 +83,9 @@ def ownership_event(e, vid):
         # hand-over: the pointer itself is passed to ObjectQueue::write
         if n.get('fn') == 'write' and 'ObjectQueue' in (n.get('cls') or '') and any(local_id(a) == vid for a in n.get('args', [])):
             return 'sink', 'queue.write'
+        if n.get('fn') in ('push', 'push_back', 'emplace') and (n.get('cls') or '').startswith(('std::queue', 'std::deque', 'std::list')) and \
+                any(local_id(a) == vid for a in n.get('args', [])):
+            return 'sink', 'storage.push'
         if n.get('obj') is not None and local_id(n.get('obj')) == vid:
             return 'use', n.get('fn')
         if any(uses_local(a, vid) for a in n.get('args', [])):
@@ -102,7 +105,7 @@ def O1O2(F, rep, FL, fnames, rules=('O1', 'O2')):
         # parameters that take ownership: File::write(ohb) forwards to the queue
         for p in fn['params']:
             if p['t'].endswith('*') and OHB in p['t'] and fn['simple'] == 'write':
-                owned[p['id']] = (p['name'], 'parameter')
+                owned[p['id']] = (p['name'], 'parameter')   # File::write(ohb) and ObjectQueue<T>::write(obj) take ownership
         paths = FL.paths(fn, follow=())   # normal edges + the function's own throws (DESIGN O2)
         rep.analysed['paths'] += len(paths)
         for vid, (name, src) in sorted(owned.items()):
@@ -710,12 +713,12 @@ def F3F4(F, rep, FL):
             continue
         n += 1
         r = evs[rd[0]]['n']
-        req = strip_all_casts(r['args'][1])
+        req = strip_all_casts(resolve_alias(r['args'][1], fn))
         req_ok = req.get('k') == 'Call' and req.get('fn') == 'defaultLogContainerSize'
         dst = strip_all_casts(r['args'][0])
         dst_ok = dst.get('k') == 'Call' and dst.get('fn') == 'data' and (member_path(dst.get('obj')) or (None,))[-1] == 'uncompressedFile'
         pre = [e for e in evs[:rd[0]] if e['ev'] == 'call' and e['n'].get('fn') == 'resize' and (member_path(e['n'].get('obj')) or (None,))[-1] == 'uncompressedFile']
-        pre_ok = bool(pre) and strip_all_casts(pre[-1]['n']['args'][0]).get('fn') == 'defaultLogContainerSize'
+        pre_ok = bool(pre) and strip_all_casts(resolve_alias(pre[-1]['n']['args'][0], fn)).get('fn') == 'defaultLogContainerSize'
         post = evs[rd[0]:]
         asg = [e for e in post if e['ev'] == 'assign' and _assign_target(e['n']) == 'uncompressedFileSize']
         asg_ok = bool(asg) and any(x.get('fn') == 'gcount' for x in walk(asg[0]['n']))
@@ -727,6 +730,45 @@ def F3F4(F, rep, FL):
     rep.ob('F4', 'cut-size', bad is None and n > 0, rep.fn_site(fn),
            'uncompressedFile2CompressedFile: reads defaultLogContainerSize() bytes into a buffer of that size; uncompressedFileSize := gcount(); buffer resized to it' if bad is None else
            'uncompressedFile2CompressedFile: ' + str(bad), nontrivial=True)
+
+
+def F3p(F, rep, FL):
+    """payload provenance in LogContainer::compress / uncompress: on every normal exit the stored payload is what the stored method
+    says it is (method 0: a copy of the other buffer; method 2: the output of the zlib call), and its size field is the size
+    of that output"""
+    lc = 'Vector::BLF::LogContainer'
+    for (fname, dst, src, zfn) in (('compress', 'compressedFile', 'uncompressedFile', 'compress2'),
+                                    ('uncompress', 'uncompressedFile', 'compressedFile', 'uncompress')):
+        fn = F.fn(lc + '::' + fname)
+        rep.count('F3p')
+        bad = None
+        n = 0
+        for evs, out in FL.paths(fn, follow=()):
+            if out not in ('normal', 'return'):
+                continue
+            case = None
+            for e in evs:
+                if e['ev'] == 'branch' and e.get('case') is not None:
+                    case = strip_all_casts(e['case']).get('v')
+            if case is None:
+                continue
+            n += 1
+            prov = None
+            for e in evs:
+                nn = e.get('n')
+                if e['ev'] == 'assign' and nn.get('k') == 'Call' and nn.get('op') == '=' and (member_path(nn['args'][0]) or (None,))[-1] == dst:
+                    prov = 'copy:' + str((member_path(nn['args'][1]) or ('?',))[-1])
+                elif e['ev'] == 'call' and nn.get('fn') == zfn and not nn.get('calleeInRoot'):
+                    a0 = strip_all_casts(nn['args'][0])
+                    if a0.get('k') == 'Call' and (member_path(a0.get('obj')) or (None,))[-1] == dst:
+                        prov = 'zlib'
+            want = {0: 'copy:' + src, 2: 'zlib'}.get(case)
+            if prov != want:
+                bad = 'method %s path ends with %s holding %s, expected %s: %s' % (case, dst, prov, want, fmt_events(evs, limit=18))
+                break
+        rep.ob('F3p', '%s|payload-provenance' % fname, bad is None and n > 0, rep.fn_site(fn),
+               'LogContainer::%s: on each of the %d method paths %s is exactly what the stored method denotes' % (fname, n, dst) if bad is None and n > 0 else
+               'LogContainer::%s: %s' % (fname, bad or 'no method path found'), nontrivial=True)
 
 
 def F5F6(F, rep, R):
